@@ -102,3 +102,23 @@ func VerifxResetGlobals() {
 	tokenCache.resultID = 0
 	tokenCache.mu.Unlock()
 }
+
+// VerifxCachesDump renders the loader's parse cache and the workspace's view
+// (which version of each file they hold), for state keys of history searches.
+func (s *Server) VerifxCachesDump() string {
+	var b strings.Builder
+	ci := s.loader.VerifxCacheIncludes()
+	var ks []string
+	for k, v := range ci {
+		ks = append(ks, fmt.Sprintf("loader %s=%v", k, v))
+	}
+	sort.Strings(ks)
+	b.WriteString(strings.Join(ks, "\n"))
+	b.WriteString("\n")
+	if s.workspace != nil {
+		b.WriteString(s.workspace.VerifxGraphs())
+		b.WriteString("\n")
+		b.WriteString(s.workspace.VerifxContent())
+	}
+	return b.String()
+}
